@@ -1,4 +1,193 @@
+"""C19 stage T: record construction / setter / point-in-cell histories on the real classes with random
+rational arguments and random query points (sixteenths), and let TLC validate all of them in one
+run against spec/cell/Trace_Geometry.tla (invariant Conforms: mismatch = <<>>)."""
+import json
+import os
+import re
+import uuid
+
+import numpy as np
+
+from .. import tlc
+from . import c19 as base
+
+MODULE = "cell/Trace_Geometry.tla"
+KINDS = ["hex", "sec3", "square", "rect", "circle", "wrap_hex", "wrap_square", "wrap_sec3"]
+
+
+def _quarter(rng, lo, hi):
+    return base.q(int(rng.randint(lo, hi + 1)), 0, 4)
+
+
+def _radius(rng):
+    if rng.randint(0, 4) == 0:  # irrational size: k sqrt3 / 2
+        return base.q(0, int(rng.randint(1, 3)), 2)
+    return _quarter(rng, 4, 9)
+
+
+def _pos(rng):
+    return (_quarter(rng, -4, 4), _quarter(rng, -4, 4))
+
+
+def _make(kind, pos, r, w, h, rot):
+    s = base.shape(kind, pos, r=r, w=w, h=h, ipos=base.PFAR)
+    return base.build(s, rot)[-1]
+
+
+def _query(rng, obj, npts):
+    pts = [[int(rng.randint(-48, 49)), int(rng.randint(-48, 49))] for _ in range(npts)]
+    got = [1 if obj.is_point_inside_shape(complex(i / 16.0, j / 16.0)) else 0 for i, j in pts]
+    return {"op": "query", "pts": pts, "got": got}
+
+
+def record(seed, ntraces, npts):
+    rng = np.random.RandomState(seed)
+    traces = []
+    for t in range(ntraces):
+        kind = KINDS[t % len(KINDS)]
+        pos, r, w, h = _pos(rng), _radius(rng), _quarter(rng, 4, 12), _quarter(rng, 4, 12)
+        rot = 0 if kind == "circle" else int(rng.randint(-24, 25)) * 30
+        obj = _make(kind, pos, r, w, h, rot)
+        ev = [{"op": "new", "kind": kind, "pos": pos, "r": r, "w": w, "h": h, "rot": rot}, _query(rng, obj, npts)]
+        if not kind.startswith("wrap"):
+            for _ in range(int(rng.randint(1, 4))):
+                ops = ["pos"] + ([] if kind == "circle" else ["rot"]) + (["rad"] if kind in ("hex", "sec3", "circle") else [])
+                op = ops[rng.randint(0, len(ops))]
+                if op == "pos":
+                    v = _pos(rng)
+                    obj.pos = base.pc(v)
+                    ev.append({"op": "pos", "pos": v})
+                elif op == "rot":
+                    v = int(rng.randint(-24, 25)) * 30
+                    obj.rotation = v
+                    ev.append({"op": "rot", "rot": v})
+                else:
+                    v = _radius(rng)
+                    obj.radius = base.qf(v)
+                    ev.append({"op": "rad", "r": v})
+                ev.append(_query(rng, obj, npts))
+        traces.append(ev)
+    return traces
+
+
+_MIS = re.compile(r"mismatch = <<(\d+), (\d+), (\d+)>>")
+
+
+def validate(ctx, traces, label):
+    os.makedirs(tlc.WORK, exist_ok=True)
+    path = os.path.join(tlc.WORK, f"c19-traces-{uuid.uuid4().hex[:8]}.json")
+    with open(path, "w") as f:
+        json.dump(traces, f)
+    try:
+        cfg, defs = base.model(set(), emit=False, invariants=["Conforms"])
+        cfg = cfg.replace("INIT Init", "INIT TInit").replace("NEXT Next", "NEXT TNext")
+        r = tlc.run(MODULE, cfg, defs=defs, env={"TRACE_FILE": path}, continue_=True, workers=2)
+    finally:
+        os.remove(path)
+    ctx.states += r.distinct
+    ctx.transitions += r.generated
+    ctx.model_runs.append({"module": MODULE, "label": label, "generated": r.generated, "distinct": r.distinct,
+                           "depth": r.depth, "violated": r.violated, "wall_s": round(r.wall, 2)})
+    events = sum(len(t) for t in traces)
+    if r.distinct < events:
+        raise tlc.TlcError(f"trace validation explored {r.distinct} states for {events} events")
+    return sorted({(int(a), int(b), int(c)) for a, b, c in _MIS.findall(r.out)})
+
+
+def classify(trace, idx):
+    """finding id for a mismatch at event idx (1-based) of a trace, or None"""
+    kind = trace[0]["kind"]
+    rot = trace[0]["rot"]
+    moved = False
+    for ev in trace[1:idx]:
+        if ev["op"] == "rot":
+            rot = ev["rot"]
+        if ev["op"] == "pos":
+            moved = True
+    if kind in ("rect", "square") and moved:
+        return base.F_MOVE
+    if (kind == "square" and rot % 90 != 0) or (kind == "rect" and rot % 180 != 0):
+        return base.F_RECT
+    return None
+
+
 def run(ctx):
-    pass
+    th = ctx.tier == "thorough"
+    ntraces, npts = (480, 40) if th else (96, 24)
+    traces = record(ctx.seed + 77, ntraces, npts)
+    mism = validate(ctx, traces, "traces")
+    badt = {}
+    for t, i, n in mism:
+        badt.setdefault(t, (i, n))
+    for t, trace in enumerate(traces, start=1):
+        ctx.trace_done()
+        if t not in badt:
+            ctx.ok(n=sum(len(e["pts"]) for e in trace if e["op"] == "query"))
+            continue
+        i, n = badt[t]
+        ev = trace[i - 1]
+        p = complex(ev["pts"][n - 1][0] / 16.0, ev["pts"][n - 1][1] / 16.0)
+        hist = [{k: v for k, v in e.items() if k not in ("pts", "got")} for e in trace[:i] if e["op"] != "query"]
+        what = (f"recorded history {hist}: is_point_inside_shape({p}) returned {bool(ev['got'][n - 1])}, "
+                f"the specification decides {not ev['got'][n - 1]}")
+        case = {"kind": "trace", "trace": trace[:i]}
+        fid = classify(trace, i)
+        if fid:
+            ctx.finding(fid, what, case)
+        else:
+            ctx.violation(what, case)
+    ctx.notes["traces_recorded"] = {"traces": len(traces), "events": sum(len(t) for t in traces),
+                                    "decisions": sum(len(e["pts"]) for t in traces for e in t if e["op"] == "query")}
+    # liveness of the binding: one corrupted decision must be reported by TLC
+    probe = json.loads(json.dumps(traces[:8]))
+    done = False
+    for t in probe:
+        if t[0]["kind"] != "hex" or done:
+            continue
+        q = t[1]
+        for n, (i, j) in enumerate(q["pts"]):
+            if abs(i / 16.0 - base.qf(t[0]["pos"][0])) < 0.2 and abs(j / 16.0 - base.qf(t[0]["pos"][1])) < 0.2:
+                q["got"][n] = 0  # a point next to the centre reported as outside
+                done = True
+                break
+        if not done:
+            q["pts"][0] = [int(round(16 * base.qf(t[0]["pos"][0]))), int(round(16 * base.qf(t[0]["pos"][1])))]
+            q["got"][0] = 0
+            done = True
+    if done:
+        m2 = validate(ctx, probe, "corrupted-probe")
+        if not m2:
+            raise tlc.TlcError("trace validation did not report a corrupted decision (binding not live)")
+        ctx.notes["corrupted_trace_detected"] = True
+
+
 def replay(ctx, data):
-    pass
+    trace = data["case"]["trace"]
+    # re-execute the history on the real classes, then validate the fresh log
+    new = trace[0]
+    obj = _make(new["kind"], tuple(map(tuple, new["pos"])), tuple(new["r"]), tuple(new["w"]), tuple(new["h"]), new["rot"])
+    fresh = [new]
+    for ev in trace[1:]:
+        if ev["op"] == "pos":
+            obj.pos = base.pc(ev["pos"])
+        elif ev["op"] == "rot":
+            obj.rotation = ev["rot"]
+        elif ev["op"] == "rad":
+            obj.radius = base.qf(ev["r"])
+        if ev["op"] == "query":
+            got = [1 if obj.is_point_inside_shape(complex(i / 16.0, j / 16.0)) else 0 for i, j in ev["pts"]]
+            fresh.append({"op": "query", "pts": ev["pts"], "got": got})
+        else:
+            fresh.append(ev)
+    mism = validate(ctx, [fresh], "replay")
+    ctx.trace_done()
+    if mism:
+        t, i, n = mism[0]
+        fid = classify(fresh, i)
+        what = f"recorded history disagrees with the specification at event {i}, query {n}"
+        if fid:
+            ctx.finding(fid, what, data["case"])
+        else:
+            ctx.violation(what, data["case"])
+    else:
+        ctx.ok(n=1)
